@@ -44,8 +44,12 @@ def tie_and_search(ctx: Ctx, vm: VisitorModel | None, built: bool) -> None:
         per_node[(ty, id(node))] += 1
         by_id[id(node)] = node
     import mypy.nodes as N
-    for tree in (trees if vm is not None else []):
-        ref = T.mypy_reference_nodes(tree, vm)
+    oracle = vm
+    if oracle is None:
+        from ..translate.visitor_model import SpecModel
+        oracle = SpecModel()               # refurb's side did not translate: mypy's side alone still says what the nodes are
+    for tree in trees:
+        ref = T.mypy_reference_nodes(tree, oracle)
         ref_ids = Counter(id(n) for n in ref)
         for n in ref:
             by_id[id(n)] = n
